@@ -562,67 +562,62 @@ def r17_7(ctx):
 
 
 def r17_8(ctx):
-    """close_with_reason - the body of close() and of Drop - starts with `if peer_state == Closed { return }`: the
-    published state Closed is its record that the teardown (stop ICE, close DTLS/SCTP, abort tasks, BYE) has run.
-    Whoever else publishes PeerConnectionState::Closed turns the application's later close() / drop into a no-op:
-    sockets, tasks and the signaling state stay as they were. Allowed publishers: close_with_reason itself, and the
-    loops that merely mirror an ICE transport that IS closed (only stop() closes it)."""
-    r = RuleResult("R17.8", "K3+K1", "PeerConnectionState::Closed is published only by the teardown itself (or as the mirror of a stopped ICE transport)")
+    """close_with_reason - the body of close() and of Drop - starts with `if <state> == Closed { return }`: that published
+    state is its record that the teardown (stop ICE, close DTLS/SCTP, abort tasks, BYE) has run. Whoever else publishes
+    Closed on the SAME state turns the application's later close() / drop into a no-op: sockets, tasks and the other
+    states stay as they were. (The loops that mirror a stopped ICE transport into the peer state did exactly that until
+    the guard was moved to the signaling state, which only the teardown ever closes.)"""
+    r = RuleResult("R17.8", "K3", "the state close() uses as its 'already closed' flag is set to Closed by the teardown only")
+    cw = ctx.body("peer_connection::PeerConnectionInner::close_with_reason")
+    r.scope.append(cw.name)
+    guard_field = None
+    rets = [i for i, blk in enumerate(cw.blocks) if blk["t"]["k"] == "ret" and i not in cw.cleanup]
+    for sb in range(len(cw.blocks)):
+        if sb in cw.cleanup or cw.blocks[sb]["t"]["k"] != "switch":
+            continue
+        term, outs = cw.switch_info(sb)
+        if term[0] == "call" and "PartialEq" in term[1] and mir.has(term, lambda x: x[0] == "agg" and x[2] == "Closed"):
+            flds = [x[2] for x in mir.walk(term) if x[0] == "field" and x[2].endswith("_state")]
+            # the early return: the `== Closed` edge reaches a return without passing any watch send
+            if flds and guard_field is None and sb < 6:
+                guard_field = flds[0]
+    if guard_field is None:
+        raise core.CheckerError("R17.8: the 'already closed' test at the top of close_with_reason was not found")
     n = 0
     for b in ctx.facts.all_bodies():
         if "::tests::" in b.name or not b.name.lstrip("<").startswith("peer_connection::"):
             continue
-        sites = []
         for bi, t, p in b.calls():
-            if p and "watch::Sender" in p and p.split("::")[-1] in ("send", "send_replace", "send_if_modified", "send_modify") and t["a"]:
-                if not mir.has_field(b.term_operand(t["a"][0]), "peer_state"):
-                    continue
-                v = b.term_operand(t["a"][1]) if len(t["a"]) > 1 else None
-                # the possible values: a literal state, or a local all of whose definitions are literal states
-                alts = [v] if v is not None else []
-                if v is not None and v[0] == "var" and len(v) > 2:
-                    alts = b.var_def_terms(v[2]) or [v]
-                elif v is not None and v[0] == "phi" and isinstance(v[1], tuple):
-                    alts = list(v[1])
-                closure_states = None
-                if v is not None and v[0] == "closure" and ctx.facts.has_body(v[1]):
-                    # send_if_modified(|state| ..): the states the closure can store are the ones it constructs
-                    cb = ctx.facts.body(v[1])
-                    closure_states = set()
-                    for _bi, _si, st_ in cb.assigns():
-                        for x in mir.walk(cb.term_rvalue(st_["rv"])):
-                            if x[0] == "agg" and x[1].endswith("PeerConnectionState"):
-                                closure_states.add(x[2])
-                    for _bi, t_, _p in cb.calls():
-                        for a_ in t_["a"]:
-                            for x in mir.walk(cb.term_operand(a_)):
-                                if x[0] == "agg" and x[1].endswith("PeerConnectionState"):
-                                    closure_states.add(x[2])
-                states = {x[2] for a in alts for x in mir.walk(a) if x[0] == "agg" and x[1].endswith("PeerConnectionState")}
-                # a value that is not (a choice of) literal states - a mapping, a parameter - may be Closed as well
-                literal = bool(alts) and all(a[0] == "agg" and a[1].endswith("PeerConnectionState") for a in alts)
-                if closure_states is not None:
-                    states, literal = closure_states, True
-                if "Closed" in states or not literal:
-                    sites.append((bi, states, literal))
-        if not sites:
-            continue
-
-        def ice_closed(term, meaning, *_):
-            return term[0] == "discr" and term[2].endswith("IceTransportState") and meaning == "Closed"
-        g = core.guard_edges(b, ice_closed)
-        for bi, states, literal in sites:
+            if not (p and "watch::Sender" in p and p.split("::")[-1] in ("send", "send_replace", "send_if_modified", "send_modify") and t["a"]):
+                continue
+            if not mir.has_field(b.term_operand(t["a"][0]), guard_field):
+                continue
+            v = b.term_operand(t["a"][1]) if len(t["a"]) > 1 else None
+            alts = [v] if v is not None else []
+            if v is not None and v[0] == "var" and len(v) > 2:
+                alts = b.var_def_terms(v[2]) or [v]
+            elif v is not None and v[0] == "phi" and isinstance(v[1], tuple):
+                alts = list(v[1])
+            states = {x[2] for a in alts for x in mir.walk(a) if x[0] == "agg" and x[1].endswith("State")}
+            literal = bool(alts) and all(a[0] == "agg" and a[1].endswith("State") for a in alts)
+            if v is not None and v[0] == "closure" and ctx.facts.has_body(v[1]):
+                cb = ctx.facts.body(v[1])
+                states, literal = set(), True
+                for _bi, _si, st_ in cb.assigns():
+                    for x in mir.walk(cb.term_rvalue(st_["rv"])):
+                        if x[0] == "agg" and x[1].endswith("State"):
+                            states.add(x[2])
+            if "Closed" not in states and literal:
+                continue
             n += 1
             if b.name.endswith("PeerConnectionInner::close_with_reason"):
-                r.ok({"site": b.where(bi), "publisher": "the teardown itself"})
-            elif literal and g and core.k1(b, [bi], g, fresh_per_iteration=True)[bi] is None:
-                r.ok({"site": b.where(bi), "publisher": b.name.split("::")[1], "cut_by": "ICE transport state == Closed"})
+                r.ok({"site": b.where(bi), "publishes": "%s = Closed" % guard_field, "publisher": "the teardown itself"})
             else:
                 r.violate(b.name, "publish:Closed", b.where(bi),
-                          "PeerConnectionState::Closed %s published outside the teardown: close_with_reason returns early once the state is "
-                          "Closed, so a later close() / drop releases nothing (ICE, DTLS, tasks and signaling state stay up)"
-                          % ("is" if literal else "may be (non-literal state value)"))
-    r.need("publications of PeerConnectionState::Closed", n, 3)
+                          "%s = Closed %s published outside the teardown: close_with_reason returns early once %s is Closed, so a later "
+                          "close() / drop releases nothing (DTLS, SCTP, tasks and the other states stay as they were)"
+                          % (guard_field, "is" if literal else "may be (non-literal value)", guard_field))
+    r.need("publications of %s = Closed" % guard_field, n, 1)
     return r
 
 
@@ -742,5 +737,67 @@ def r17_10(ctx):
     return r
 
 
+def r17_11(ctx):
+    """'pending and subsequent API calls return promptly instead of hanging': PeerConnection::recv() waits on an event
+    channel whose sending half lives in the connection itself (and in its receivers), so the channel never closes on its
+    own. recv() therefore has to watch the closed state as well: a waiter parked in recv() - the usual event loop of an
+    application - must come back when the connection is closed."""
+    r = RuleResult("R17.11", "K4", "PeerConnection::recv() ends when the connection is closed")
+    fn = "peer_connection::PeerConnection::recv::{closure#0}"
+    b = ctx.body(fn)
+    r.scope.append(fn)
+    waits = [bi for bi, t, p in b.calls() if p and ("watch::Receiver" in p) and p.split("::")[-1] in ("wait_for", "changed")]
+    subs = [bi for bi, t, p in b.calls() if p and p.endswith("watch::Sender::<T>::subscribe") and t["a"] and
+            any(mir.has_field(b.term_operand(t["a"][0]), f) for f in ("signaling_state", "peer_state"))]
+    def _pred_closed(t):
+        if p_ := [x for x in t["a"][1:] if True]:
+            for a in p_:
+                v = b.term_operand(a)
+                if v[0] == "closure" and ctx.facts.has_body(v[1]):
+                    cb = ctx.facts.body(v[1])
+                    return any(x[0] == "agg" and x[2] == "Closed" for _bi, _si, st_ in cb.assigns() for x in mir.walk(cb.term_rvalue(st_["rv"]))) or \
+                        any(mir.has(cb.switch_info(sb)[0], lambda x: x[0] == "agg" and x[2] == "Closed" or x[0] == "discr")
+                            for sb in range(len(cb.blocks)) if cb.blocks[sb]["t"]["k"] == "switch")
+        return True     # changed(): any transition wakes the waiter
+    waits = [bi for bi in waits if _pred_closed(b.blocks[bi]["t"])]
+    if waits and subs:
+        r.ok({"site": b.where(waits[0]), "watches": "the closed state next to the event channel"})
+    else:
+        r.violate(fn, "recv:no-close-watch", b.where(0),
+                  "recv() awaits the event channel only; its sender is owned by the connection, so after close() a pending or later "
+                  "recv() never returns")
+    return r
+
+
+def r17_12(ctx):
+    """'every open data channel observes Close exactly once' and no DataChannel::recv() hangs: close_with_reason itself ends
+    every registered channel (state swapped to Closed; Close sent and the event channel closed only by the call that made
+    the transition). The SCTP runner's cleanup guard does the same, but a channel created before SCTP was started never
+    meets that guard."""
+    r = RuleResult("R17.12", "K4+K1", "close() ends every registered data channel, Close at most once")
+    b = ctx.body("peer_connection::PeerConnectionInner::close_with_reason")
+    r.scope.append(b.name)
+    closes = [bi for bi, t, p in b.calls() if p and p.endswith("DataChannel::close_channel")]
+    events = [(bi, t) for bi, t, p in b.calls() if p and p.endswith("DataChannel::send_event")
+              and mir.has(b.term_operand(t["a"][1]), lambda x: x[0] == "agg" and x[2] == "Close")]
+    if not closes or not events:
+        r.violate(b.name, "close:channels", b.where(0),
+                  "close_with_reason does not end the registered data channels: a channel that never reached the SCTP runner (created "
+                  "before SCTP started) gets no Close and its recv() waits for ever")
+        return r
+    def transitioned(term, meaning, *_):
+        # old state (result of the swap) != Closed
+        return term[0] == "bin" and term[1] in ("Ne", "Eq") and mir.has(term, lambda x: x[0] == "call" and x[1].endswith("::swap")) and \
+            isinstance(meaning, bool) and (meaning is (term[1] == "Ne"))
+    g = core.guard_edges(b, transitioned)
+    for bi, t in events:
+        if g and core.k1(b, [bi], g, fresh_per_iteration=True)[bi] is None:
+            r.ok({"site": b.where(bi), "Close": "only by the call that swapped the state to Closed"})
+        else:
+            r.violate(b.name, "close:twice", b.where(bi), "Close is sent without this call having performed the transition to Closed: a channel the SCTP guard "
+                      "already closed is told Close a second time")
+    return r
+
+
 def run(ctx):
-    return [r17_1(ctx), r17_2(ctx), r17_3(ctx), r17_4(ctx), r17_5(ctx), r17_6(ctx), r17_7(ctx), r17_8(ctx), r17_9(ctx), r17_10(ctx)]
+    return [r17_1(ctx), r17_2(ctx), r17_3(ctx), r17_4(ctx), r17_5(ctx), r17_6(ctx), r17_7(ctx), r17_8(ctx), r17_9(ctx), r17_10(ctx), r17_11(ctx), r17_12(ctx)]
